@@ -256,7 +256,7 @@ func sortedSetBody(s *simrt.Sim) {
 			k := 0
 			switch {
 			case noDelete:
-				k = s.Weighted(5, 0, 2)
+				k = []int{0, 2}[s.Weighted(5, 2)]
 			case disjoint:
 				k = s.Weighted(5, 4, 2, 2)
 			default:
